@@ -239,6 +239,9 @@ func (d *PushDispatcher) runRoute(
 		for i, env := range resp.Items {
 			select {
 			case <-d.stopCh:
+				// Settle what this micro-batch has already delivered before
+				// handing the untouched leases back.
+				d.applyLeaseActions(logger, actions)
 				d.requeueLeases(logger, resp.Items[i:], 0, "dispatcher_stop_requeue_failed")
 				return
 			default:
